@@ -161,7 +161,16 @@ type c03Verifier struct {
 // c03Judge calls one verifier and judges an acceptance.
 func c03Judge(c *core.Ctx, f *rm.Forest, v c03Verifier, cl claim, setScn func()) (accepted bool) {
 	c.Eval(1)
-	err := v.call(cl)
+	err, stuck := c03Guarded(v, cl, rm.Rows(f.N))
+	if stuck {
+		// non-termination is C04's subject; for soundness a verifier that
+		// does not return has not accepted anything
+		c.Count("verifier_calls_cut_off_by_the_step_budget", 1)
+		if c.Res.Counters["verifier_calls_cut_off_by_the_step_budget"] == 1 {
+			c.Inconclusive(v.site + " exceeded the calculateHashes step budget (see C04); treated as not accepted")
+		}
+		return false
+	}
 	if err != nil {
 		return false
 	}
@@ -187,6 +196,25 @@ func c03Judge(c *core.Ctx, f *rm.Forest, v c03Verifier, cl claim, setScn func())
 	c.ViolateContinue(v.site, "accepted-false-claim", trig, fmt.Sprintf("%s accepted a false claim on a forest of %d leaves (roots %s): targets=%v hashes=%s proof=%s: %s",
 		v.site, f.N, hashesStr(f.Roots), cl.Targets, hashesStr(cl.Hashes), hashesStr(cl.Proof), what))
 	return true
+}
+
+// c03Guarded calls the verifier under C04's logical step budget so that a
+// non-terminating verifier cannot stall this check.
+func c03Guarded(v c03Verifier, cl claim, rows uint8) (err error, stuck bool) {
+	c04InstallHook()
+	c04Steps = 0
+	c04Limit = 4 * (int(rows) + 3) * (len(cl.Targets) + 2)
+	defer func() {
+		c04Limit = 0
+		if r := recover(); r != nil {
+			if _, ok := r.(stepBudgetExceeded); ok {
+				stuck = true
+				return
+			}
+			panic(r)
+		}
+	}()
+	return v.call(cl), false
 }
 
 func mkProof(cl claim) u.Proof { return u.Proof{Targets: cloneU64(cl.Targets), Proof: cloneHashes(cl.Proof)} }
